@@ -41,6 +41,8 @@ type Submitter interface {
 type submissionResult struct {
 	sct *ct.SignedCertificateTimestamp
 	err error
+	// done is closed once the outcome for the Log is final.
+	done chan struct{}
 }
 
 type groupState struct {
@@ -81,7 +83,7 @@ func (sub *safeSubmissionState) request(logURL string, cancel context.CancelFunc
 		// Already requested.
 		return false
 	}
-	sub.results[logURL] = &submissionResult{}
+	sub.results[logURL] = &submissionResult{done: make(chan struct{})}
 	isAwaited := false
 	for g := range sub.logToGroups[logURL] {
 		if sub.groupNeeds[g] > 0 {
@@ -91,10 +93,28 @@ func (sub *safeSubmissionState) request(logURL string, cancel context.CancelFunc
 	}
 	if !isAwaited {
 		// No groups expecting result from this Log.
+		close(sub.results[logURL].done)
 		return false
 	}
 	sub.cancels[logURL] = cancel
 	return true
+}
+
+// wait blocks until the outcome of a request to the Log made on behalf of
+// another group is final, or ctx is done. A group whose Logs are all being
+// asked by other groups must not conclude before those answers are in: they
+// count for it too.
+func (sub *safeSubmissionState) wait(ctx context.Context, logURL string) {
+	sub.mu.Lock()
+	r := sub.results[logURL]
+	sub.mu.Unlock()
+	if r == nil {
+		return
+	}
+	select {
+	case <-ctx.Done():
+	case <-r.done:
+	}
 }
 
 // setResult processes SCT-result. Writes it down if it is error or awaited-SCT.
@@ -103,8 +123,13 @@ func (sub *safeSubmissionState) request(logURL string, cancel context.CancelFunc
 func (sub *safeSubmissionState) setResult(logURL string, sct *ct.SignedCertificateTimestamp, err error) {
 	sub.mu.Lock()
 	defer sub.mu.Unlock()
+	done := make(chan struct{})
+	if r := sub.results[logURL]; r != nil && r.done != nil {
+		done = r.done
+	}
+	defer close(done)
 	if sct == nil {
-		sub.results[logURL] = &submissionResult{sct: sct, err: err}
+		sub.results[logURL] = &submissionResult{sct: sct, err: err, done: done}
 		return
 	}
 	// If at least one group needs that SCT, result is set. Otherwise dumped.
@@ -114,7 +139,7 @@ func (sub *safeSubmissionState) setResult(logURL string, sct *ct.SignedCertifica
 			continue
 		}
 		if sub.groupNeeds[groupName] > 0 {
-			sub.results[logURL] = &submissionResult{sct: sct, err: err}
+			sub.results[logURL] = &submissionResult{sct: sct, err: err, done: done}
 		}
 		sub.groupNeeds[groupName]--
 	}
@@ -134,7 +159,7 @@ func (sub *safeSubmissionState) setResult(logURL string, sct *ct.SignedCertifica
 			// Set the result only if the base group still needs SCTs more than total counts
 			// of minimum inclusions for other groups.
 			if sub.groupNeeds[ctpolicy.BaseName] > minInclusionsForOtherGroup {
-				sub.results[logURL] = &submissionResult{sct: sct, err: err}
+				sub.results[logURL] = &submissionResult{sct: sct, err: err, done: done}
 				sub.groupNeeds[ctpolicy.BaseName]--
 			}
 		}
@@ -223,6 +248,8 @@ func groupRace(ctx context.Context, chain []ct.ASN1Cert, asPreChain bool,
 			}
 			simYield("race.request", group.Name, logURL, chain)
 			if firstRequested := state.request(logURL, cancel); !firstRequested {
+				// Another group is asking (or has asked) this Log.
+				state.wait(subCtx, logURL)
 				return
 			}
 			sct, err := submitter.SubmitToLog(subCtx, logURL, chain, asPreChain)
